@@ -1362,12 +1362,23 @@ class _TreeItems:
     def __iter__(self):
         bucket = self.firstbucket
         itertype = self.itertype
-        iterargs = self.iterargs
+        iterargs = tuple(self.iterargs)
+        min, max, excludemin, excludemax = (
+            iterargs + (_marker, _marker, False, False)[len(iterargs):])
+        # An exclusive omitted bound drops the overall smallest (largest)
+        # key only, i.e. it concerns the first (last) bucket of the chain,
+        # not every bucket the arguments are handed to.
+        open_min = excludemin and (min is _marker or min is None)
+        open_max = excludemax and (max is _marker or max is None)
         done = 0
         # Note that we don't mind if the first bucket yields no
         # results due to an idiosyncrasy in how range searches are done.
         while bucket is not None:
-            for k in getattr(bucket, itertype)(*iterargs):
+            xmin = excludemin and not (
+                open_min and bucket is not self.firstbucket)
+            xmax = excludemax and not (
+                open_max and bucket._next is not None)
+            for k in getattr(bucket, itertype)(min, max, xmin, xmax):
                 yield k
                 done = 0
             if done:
